@@ -8,7 +8,7 @@
 From Coq Require Import String List NArith ZArith Bool.
 From J5V.lib Require Import Text Outcome GoExpr.
 From J5V.model Require Import BclLexer BclParser BclFmt BclCli BclFmtAligned.
-From J5V.proofs Require Import BclPosProofs BclLexerProofs BclParserProofs BclFmtProofs BclFmtLitProofs BclReflowProofs BclLexLitProofs BclFmtSeqProofs BclFragWfProofs BclFmtLineProofs BclWalkBackProofs BclFmtFileProofs BclDescGapProofs BclFmtRoundProofs BclFmtIdemProofs BclDocProofs BclUtf8Proofs BclRuneClosedProofs BclFmtBytesProofs BclDocBytesProofs BclCliProofs BclIdentExactProofs BclFmtGenProofs BclFmtGenAllProofs BclFmtGenAll2Proofs BclFmtGenAll3Proofs BclFmtDiffsIdemProofs.
+From J5V.proofs Require Import BclPosProofs BclLexerProofs BclParserProofs BclFmtProofs BclFmtLitProofs BclReflowProofs BclLexLitProofs BclFmtSeqProofs BclFragWfProofs BclFmtLineProofs BclWalkBackProofs BclFmtFileProofs BclDescGapProofs BclFmtRoundProofs BclFmtIdemProofs BclDocProofs BclUtf8Proofs BclRuneClosedProofs BclFmtBytesProofs BclDocBytesProofs BclCliProofs BclIdentExactProofs BclFmtGenProofs BclFmtGenAllProofs BclFmtGenAll2Proofs BclFmtGenAll3Proofs BclFmtDiffsIdemProofs BclExtentFullProofs.
 (* after the proofs: doc_of / value_doc / tag_doc below are the declarative ones of model/BclDoc.v *)
 From J5V.model Require Import BclDoc.
 Import ListNotations.
@@ -252,6 +252,14 @@ Theorem C09_formatted_no_edits_partial : forall x y, fmt_bytes x = Ok y ->
              (extent_ok ds = true -> fmt_diffs y = Ok []).
 Proof. exact fmt_diffs_idem_extent. Qed.
 Print Assumptions C09_formatted_no_edits_partial.
+
+(* ... and the full statement: extent_ok holds for the diffs of every fixed point of Fmt (proofs/BclExtentProofs.v: the
+   closing EOL token of fragment i of the formatter's output sits on line (newlines of the text up to fragment i) - 1;
+   proofs/BclWalkTokProofs.v: the fragment read back ends on that token's line; proofs/BclExtentFullProofs.v: the
+   arithmetic), so the editor is offered NO edit for formatted text, for every input the formatter accepts *)
+Theorem C09_formatted_no_edits_full : C09_formatted_no_edits_full_statement.
+Proof. exact fmt_diffs_idem_full. Qed.
+Print Assumptions C09_formatted_no_edits_full.
 
 (* non-vacuity: a block with a description that is re-flowed, a multi-line block comment and an empty line; the
    second run's diffs satisfy the condition and the edit list of the formatted text is empty *)
